@@ -804,7 +804,7 @@ Lemma g_close_trigger s t : grows no_me s (close_trigger s t).
 Proof.
   unfold close_trigger, close_enter_closed. destruct (st_fsm s); try leaf.
   - destruct (runt s); leaf.
-  - unfold close_cont, cont_off_events. destruct (cont_plugins (release s)); leaf.
+  - unfold close_cont, cont_off_events; match goal with |- context [match cont_plugins ?x with _ => _ end] => destruct (cont_plugins x) end; leaf.
 Qed.
 
 Lemma g_enter_close s t : grows no_me s (enter_close s t).
@@ -870,7 +870,7 @@ Proof.
   - destruct (run_finished s) as [[|]|]; try leaf.
     eapply grows_weaken; [apply no_me_okn | apply g_close_trigger].
   - unfold close_enter_closed. destruct (runt s); leaf.
-  - unfold close_cont, cont_off_events. destruct (cont_plugins (release s)); leaf.
+  - unfold close_cont, cont_off_events; match goal with |- context [match cont_plugins ?x with _ => _ end] => destruct (cont_plugins x) end; leaf.
   - destruct (run_finished s) as [[|]|]; leaf.
 Qed.
 
